@@ -314,11 +314,8 @@ def run(ctx):
             if r > ftol:
                 ctx.violation("mirror | %s of the mirrored grid differs" % v, dict(pair=label, rel=r, tol=ftol),
                               replay=dict(kind="mirror", label=label))
-        want = int_map_mirror(a.nc, b.nc, double=a.config["geom"] not in ("lsn", "usn"), a=a)
+        want = int_map_mirror(a.nc, b.nc, double=len(a.side["eq"]["regions"]) == 6, a=a)
         got = {k: int(b.nc[k]) for k in want}
-        if a.config["geom"] in ("lsn", "usn"):
-            # jyseps2_1 = jyseps1_2 of a single null is an arbitrary marker inside the core
-            pass
         if got != want:
             ctx.violation("mirror | topology integers do not map as documented",
                           dict(pair=label, got=got, want=want), replay=dict(kind="mirror", label=label))
